@@ -448,22 +448,26 @@ def encodeData (o : Oracle) (s : St) (site : Nat) (isLast forceFlush : Bool) : O
 def sealBytes (sealV nbytes : Nat) : Bytes :=
   (List.range nbytes).map (fun i => (sealV / 256 ^ i) % 256)
 
+/-- `inject_byte_padding_block`: is the seal appended behind pending output (`next_out_` not null
+and `available_out_ != 0`, the fixed condition) or staged at the start of `tiny_buf_`? -/
+def padAppend (s : St) : Bool :=
+  match s.nextOut with
+  | .none => false
+  | _ => decide (s.pending.length ≠ 0)
+
+/-- the state after the padding block has been staged with output cursor `nx` -/
+def padResult (s : St) (nx : NextOut) : St :=
+  { s with lastBytes := 0, lastBytesBits := 0, nextOut := nx,
+           pending := s.pending ++ sealBytes (s.lastBytes ||| (6 * 2 ^ s.lastBytesBits)) ((s.lastBytesBits + 6 + 7) / 8) }
+
 /-- `inject_byte_padding_block` -/
 def injectBytePaddingBlock (s : St) : Out St :=
-  let sealV := s.lastBytes ||| (6 * 2 ^ s.lastBytesBits)
-  let sealBits := s.lastBytesBits + 6
-  let nbytes := (sealBits + 7) / 8
-  let s := { s with lastBytes := 0, lastBytesBits := 0 }
-  let append : Bool := match s.nextOut with | .none => false | _ => decide (s.pending.length ≠ 0)
-  if append then
+  if padAppend s then
     match s.nextOut with
-    | .dyn off => if off + s.pending.length + nbytes > s.storageSize then .panic
-                  else .ok { s with pending := s.pending ++ sealBytes sealV nbytes }
-    | .tiny off => if off + s.pending.length + nbytes > 16 then .panic
-                   else .ok { s with pending := s.pending ++ sealBytes sealV nbytes }
+    | .dyn off => if off + s.pending.length + (s.lastBytesBits + 6 + 7) / 8 > s.storageSize then .panic else .ok (padResult s s.nextOut)
+    | .tiny off => if off + s.pending.length + (s.lastBytesBits + 6 + 7) / 8 > 16 then .panic else .ok (padResult s s.nextOut)
     | .none => .panic
-  else
-    .ok { s with nextOut := .tiny 0, pending := s.pending ++ sealBytes sealV nbytes }
+  else .ok (padResult s (.tiny 0))
 
 def nextOutIncrement (n : NextOut) (inc : Nat) : NextOut :=
   match n with
